@@ -144,13 +144,9 @@ def groupLabels (without : Bool) (grouping : List String) (ls : Labels) : Labels
 def groupKey (without : Bool) (grouping : List String) (ls : Labels) : Labels :=
   if without then (ls.del grouping).dropName else ls.keep grouping
 
-/-- partition in order of first appearance -/
+/-- partition by key, groups in order of first appearance, members in input order -/
 def groupBy {α : Type} (key : α → Labels) (xs : List α) : List (Labels × List α) :=
-  xs.foldl (fun acc x =>
-    let k := key x
-    if acc.any (fun g => g.1 == k) then
-      acc.map (fun g => if g.1 == k then (g.1, g.2 ++ [x]) else g)
-    else acc ++ [(k, [x])]) []
+  (dedup (xs.map key)).map fun k => (k, xs.filter fun x => key x == k)
 
 def aggregate (op : String) (without : Bool) (grouping : List String) (param : V) (v : Vec V) :
     Except Err (Vec V) :=
